@@ -16,6 +16,8 @@ MODULES = {
     "C16": "h_fileobj",
     "C17": "h_route",
     "C01": "h_fs",
+    "C04": "h_reflect",
+    "C18": "h_reflect",
     "C05": "h_fs",
     "C06": "h_fs",
     "C10": "h_fs",
